@@ -124,8 +124,9 @@ fn trunc(out: &mut Out, text: &str, ell: &str, max: usize, r: &mut Rng) {
                 match verdict {
                     None => out.oracle_ok(),
                     Some((sig, d)) if agree || (fits_both && sig.contains("text-that-fits")) => {
-                        // the runtime keeps the first 25 failures only: report a few occurrences of this
-                        // (frequent) signature and count the rest, so that a different failure is never crowded out
+                        // the runtime keeps the first 25 failures only: should the (repaired, formerly frequent)
+                        // defect return, report a few occurrences and count the rest, so that a different
+                        // failure is never crowded out
                         static REPORTED: std::sync::atomic::AtomicU64 = std::sync::atomic::AtomicU64::new(0);
                         if sig != "text:truncate-start-drops-leading-zero-width-chars-of-text-that-fits"
                             || REPORTED.fetch_add(1, std::sync::atomic::Ordering::Relaxed) < 4 {
@@ -257,6 +258,17 @@ pub fn run(cfg: &Cfg, out: &mut Out) {
         layer = next;
     }
     let mut r0 = cfg.rng(440);
+    // Part 0 — fixed scenarios: the reproducers of the former finding
+    // `text:truncate-start-drops-leading-zero-width-chars-of-text-that-fits` (repaired in /repo 645211a:
+    // zero-width characters are skipped only after a removed character).  Text that fits must come
+    // back unchanged; if the defect returns these cases fail the oracle with that signature, which
+    // known_findings.json lists as `fixed` (suppresses nothing) ⇒ VIOLATION.
+    for (t, e, max) in [("\u{301}a", "", 4), ("\tfoo", "", 10), ("\u{301}a", "…", 1), ("\u{200d}\u{301}日", ".", 2),
+                        // truncated: the zero-width characters after the cut still go with the removed character
+                        ("a\u{301}bc", "", 2), ("a\u{301}bc", "…", 3)] {
+        trunc(out, t, e, max, &mut r0);
+        elide(out, t, e, max);
+    }
     for t in &texts { for e in ells { for max in 0..=4 {
         elide(out, t, e, max);
         if t.chars().count() <= 2 || cfg.tier == Tier::Thorough { trunc(out, t, e, max, &mut r0); }
